@@ -311,6 +311,43 @@ func sqlBoundaryInputs() []string {
 			add("1" + strings.Repeat(" ", n) + " union select password from users")
 			add("x' or '" + strings.Repeat("a", n) + "'='a' union select 1 -- ")
 		}
+		// (k) keywords, numbers and back-quoted names glued together without any delimiter byte
+		glue := []string{"select", "from", "union", "case", "when", "not", "binary", "having", "or", "and", "`x`", "`users`", ".1", ".5e1", "1", "a"}
+		var g func(prefix string, depth int)
+		g = func(prefix string, depth int) {
+			if prefix != "" {
+				add(prefix)
+				add("1 " + prefix)
+			}
+			if depth == 4 {
+				return
+			}
+			for _, a := range glue {
+				g(prefix+a, depth+1)
+			}
+		}
+		g("", 0)
+		// (l) characters whose upper- or lower-case form has a different UTF-8 length (computed from the unicode
+		// tables): a buffer sized from the input length overflows or a slice shrinks when they are case-mapped
+		cm := caseLengthChangers()
+		for i, r := range cm {
+			w5, w13 := strings.Repeat(r, 5), strings.Repeat(r, 13)
+			r2 := cm[(i+1)%len(cm)]
+			for _, t := range []string{"W", "1 W", "W W", "select W from t", "x' or W=W --", "W(", "`W`", "@W", "1 union select W", w13 + " " + r2 + r + r2 + r, "a" + r + "b " + r2 + "c"} {
+				add(strings.ReplaceAll(t, "W", w5))
+				add(strings.ReplaceAll(t, "W", w13))
+				add(strings.ReplaceAll(t, "W", "sel"+r+"ct"))
+			}
+		}
+		// (m) a quote beyond the clip followed by gated tails (state carried between the readings of one call)
+		for n := 28; n <= 40; n++ {
+			w := strings.Repeat("a", n)
+			for _, q := range []string{"'", "\""} {
+				for _, tail := range []string{" or #x\n b", " #\n or 1=1", " --x\n or 1=1", " and x", " or b", " or 1=1 #", " or #\n 1", " and #x\n 'b"} {
+					add(w + q + tail)
+				}
+			}
+		}
 		// (e) byte-order mark and alias runes in front of fixtures
 		for i, f := range corp().SQL {
 			if i%4 == 0 {
@@ -429,6 +466,26 @@ func fpRealisations() ([]string, int, int) {
 		}
 	})
 	return fpRealVal, fpRealKeys, fpRealTotal
+}
+
+// caseLengthChangers: every character below U+3000 whose strings.ToUpper or strings.ToLower form
+// has a different UTF-8 length than the character itself (a sample of at most 48, spread evenly).
+func caseLengthChangers() []string {
+	var all []string
+	for r := rune(0x80); r < 0x3000; r++ {
+		s := string(r)
+		if len(strings.ToUpper(s)) != len(s) || len(strings.ToLower(s)) != len(s) {
+			all = append(all, s)
+		}
+	}
+	if len(all) <= 48 {
+		return all
+	}
+	var out []string
+	for i := 0; i < 48; i++ {
+		out = append(out, all[i*len(all)/48])
+	}
+	return out
 }
 
 func sqlCase(in string) ev.Case { return ev.Case{Kind: "diff", In: in} }
